@@ -9,6 +9,7 @@
 From Coq Require Import ZArith NArith List Bool Reals Floats String. Import ListNotations.
 From PV Require Import Num NumR model.Tables model.Spec model.Geom model.Optimiser model.OptSpec model.Pipeline model.Svg model.Json gen.GenTables gen.GenSchema proofs.OptStruct proofs.OptLoop proofs.LatticeFacts proofs.TablesFacts proofs.PipelineFacts proofs.OutputFacts proofs.FloatFacts proofs.OrderFacts proofs.Interleave.
 From PV Require Import model.Cli gen.GenCli proofs.CliFacts.
+From PV Require Import gen.GenFns proofs.SrcOrder.
 
 Theorem C09_run_writes_only_own_cells :
   forall (NN : Num) (fexp : carrier NN -> carrier NN) (score : N -> list (carrier NN) -> option
@@ -101,4 +102,22 @@ Theorem C09_cli_driver_translated :
   gen_cli_problem = ""%string.
 Proof. exact cli_translated. Qed.
 Print Assumptions C09_cli_driver_translated.
+
+
+Theorem S_state_order_is_source :
+  forall (NN : Num) (a b : option (carrier NN)), gen_state_eq NN a b = score_eq NN a b /\
+    gen_state_partial_cmp NN a b = score_cmp NN a b /\ gen_state_cmp NN a b = cmp_unwrap NN a b
+    /\ gen_lj_state_eq NN a b = score_eq NN a b /\ gen_lj_state_partial_cmp NN a b = score_cmp
+    NN a b /\ gen_lj_state_cmp NN a b = cmp_unwrap NN a b.
+Proof. exact state_order_is_source. Qed.
+Print Assumptions S_state_order_is_source.
+
+
+
+Theorem C09_order_source_translated :
+  translated_gen_state_eq = true /\ translated_gen_state_partial_cmp = true /\
+    translated_gen_state_cmp = true /\ translated_gen_lj_state_eq = true /\
+    translated_gen_lj_state_partial_cmp = true /\ translated_gen_lj_state_cmp = true.
+Proof. exact order_source_translated. Qed.
+Print Assumptions C09_order_source_translated.
 
